@@ -186,6 +186,43 @@ class Run:
                     for i, env in enumerate(shard_envs)]
             return [f.result() for f in futs]
 
+    def oracle(self, module, files, *, timeout=1800, heap="3g", extra_env=None):
+        """Direction B for pure functions: every NDJSON record of every file is judged by the TLC-evaluated
+        oracle module (which prints <<"ORACLE", n, "[bad indices]">>). Returns (records judged, bad records)."""
+        for f in files:                       # a crash of the driver is an event no specification allows
+            lines = open(f).read().splitlines()
+            crashes = [l for l in lines if l.startswith('{"e":"crash"')]
+            if crashes:
+                keep = [l for l in lines if not l.startswith('{"e":"crash"')]
+                open(f, "w").write("\n".join(keep) + ("\n" if keep else ""))
+                self.violation("the library crashed (%s) in the call following record %d of %s; last completed call: %s"
+                               % (crashes[0], len(keep), os.path.basename(f), (keep[-1] if keep else "-")[:300]),
+                               {"crash": crashes[0], "file": os.path.basename(f), "last_records": keep[-3:]}, name="crash")
+        files = [f for f in files if os.path.getsize(f) > 0]
+        envs = [dict(extra_env or {}, TRACE=f) for f in files]
+        res = self.tlc_shards(module, "Empty.cfg", envs, timeout=timeout, heap=heap)
+        total, bad = 0, []
+        for f, r in zip(files, res):
+            m = re.search(r'"ORACLE",\s*(\d+),\s*"(\[.*?\])"', r.out, re.S)
+            if not m or not r.ok:
+                raise MachineryError("oracle %s produced no result for %s:\n%s" % (module, f, r.tail(30)))
+            total += int(m.group(1))
+            idx = json.loads(m.group(2))
+            if idx:
+                lines = open(f).read().splitlines()
+                bad += [json.loads(lines[i - 1]) for i in idx]
+        return total, bad
+
+    def split_file(self, path, n, tag):
+        """split an NDJSON file round-robin into n shard files"""
+        lines = open(path).read().splitlines()
+        out = []
+        for i, sh in enumerate(shard(lines, n)):
+            p = self.path("shards", "%s-%d.ndjson" % (tag, i))
+            open(p, "w").write("\n".join(sh) + "\n")
+            out.append(p)
+        return out
+
     # ------------------------------------------------------------------ running harness programs
     def run(self, cmd, *, env=None, timeout=600, ok_codes=(0,), stdin=None, cwd=None):
         e = dict(os.environ)
